@@ -72,7 +72,9 @@ struct Dumper<'tcx> {
 
 impl<'tcx> Dumper<'tcx> {
     fn path(&self, did: DefId) -> String {
-        let p = ty::print::with_no_trimmed_paths!(self.tcx.def_path_str(did));
+        let p = ty::print::with_no_visible_paths!(ty::print::with_no_trimmed_paths!(
+            self.tcx.def_path_str(did)
+        ));
         if did.is_local() {
             format!("{}::{}", self.tcx.crate_name(LOCAL_CRATE), p)
         } else {
@@ -124,7 +126,7 @@ impl<'tcx> Dumper<'tcx> {
         let ix = self.types.len();
         self.types.push(String::new());
         self.type_ix.insert(t, ix);
-        let s = ty::print::with_no_trimmed_paths!(format!("{}", t));
+        let s = ty::print::with_no_visible_paths!(ty::print::with_no_trimmed_paths!(format!("{}", t)));
         let mut items: Vec<(&str, String)> = vec![("s", jstr(&s))];
         match t.kind() {
             ty::Bool => items.push(("k", jstr("bool"))),
@@ -203,7 +205,7 @@ impl<'tcx> Dumper<'tcx> {
     // ADT table: repr, variants, fields, layout when monomorphic
     fn adt(&mut self, did: DefId, t: Ty<'tcx>) {
         let tcx = self.tcx;
-        let key = ty::print::with_no_trimmed_paths!(format!("{}", t));
+        let key = ty::print::with_no_visible_paths!(ty::print::with_no_trimmed_paths!(format!("{}", t)));
         if self.adts.contains_key(&key) {
             return;
         }
@@ -297,7 +299,7 @@ impl<'tcx> Dumper<'tcx> {
             match tcx.def_kind(parent) {
                 DefKind::Impl { of_trait } => {
                     let self_ty = tcx.type_of(parent).instantiate_identity().skip_norm_wip();
-                    let s = ty::print::with_no_trimmed_paths!(format!("{}", self_ty));
+                    let s = ty::print::with_no_visible_paths!(ty::print::with_no_trimmed_paths!(format!("{}", self_ty)));
                     items.push(("impl_self", jstr(&s)));
                     if of_trait {
                         let tr = tcx.impl_trait_ref(parent).instantiate_identity().skip_norm_wip();
@@ -840,7 +842,7 @@ impl rustc_driver::Callbacks for Cb {
             let did = id.owner_id.to_def_id();
             if let DefKind::Impl { of_trait } = tcx.def_kind(did) {
                 let self_ty = tcx.type_of(did).instantiate_identity().skip_norm_wip();
-                let s = ty::print::with_no_trimmed_paths!(format!("{}", self_ty));
+                let s = ty::print::with_no_visible_paths!(ty::print::with_no_trimmed_paths!(format!("{}", self_ty)));
                 let mut items: Vec<(&str, String)> =
                     vec![("self", jstr(&s)), ("self_ty", d.ty(self_ty).to_string())];
                 if of_trait {
